@@ -35,12 +35,13 @@ Theorem C13_rep_sep_eq_lua : forall s n sep r, in_i64 n -> slen s <= maxint -> s
 Proof. exact rep_sep_eq_lua. Qed.
 Print Assumptions C13_rep_sep_eq_lua.
 
-(* full statement [rep_memory_safe]: string.rep never writes outside its buffer - false today *)
+(* full statement [rep_memory_safe]: string.rep never writes outside its buffer.  After b10c461 it is false
+   at exactly one size (n * #s = 2^64 - 1: string.create asks the allocator for size + 1 = 0 bytes) *)
 Theorem C13_rep_memory_safe_refuted : ~ rep_memory_safe.
 Proof. exact rep_memory_safe_refuted. Qed.
 Print Assumptions C13_rep_memory_safe_refuted.
 
-Theorem C13_rep_memory_safe_partial : forall s n, 0 <= n * slen s < two64 - 1 -> nl_rep s n <> Unsafe.
+Theorem C13_rep_memory_safe_partial : forall s n, 0 <= n -> n * slen s <> two64 - 1 -> nl_rep s n <> Unsafe.
 Proof. exact rep_memory_safe_partial. Qed.
 Print Assumptions C13_rep_memory_safe_partial.
 
@@ -78,16 +79,17 @@ Theorem C13_min_eq_lua : forall x l, nl_min_l x l = lua_min_l x l.
 Proof. exact min_eq_lua. Qed.
 Print Assumptions C13_min_eq_lua.
 
-Theorem C13_fmod_eq_lua_partial : forall x y v, in_i64 x -> in_i64 y ->
-  nl_fmod x y = Val v -> lua_fmod x y = LVal v.
-Proof. exact fmod_eq_lua_partial. Qed.
-Print Assumptions C13_fmod_eq_lua_partial.
+Theorem C13_fmod_eq_lua : forall x y, in_i64 x -> in_i64 y ->
+  match lua_fmod x y with
+  | LVal v => nl_fmod x y = Val v
+  | LErr => nl_fmod x y = Trap
+  end.
+Proof. exact fmod_eq_lua. Qed.
+Print Assumptions C13_fmod_eq_lua.
 
-(* full statement [fmod_total]: wherever Lua's integer fmod returns, the port returns the same -
-   false today (minint, -1) *)
-Theorem C13_fmod_total_refuted : ~ fmod_total.
-Proof. exact fmod_total_refuted. Qed.
-Print Assumptions C13_fmod_total_refuted.
+Theorem C13_fmod_never_unsafe : forall x y, nl_fmod x y <> Unsafe.
+Proof. exact fmod_never_unsafe. Qed.
+Print Assumptions C13_fmod_never_unsafe.
 
 (* ---- (b) string order: Lua's l_strcmp (strcoll chunks between embedded NULs, C locale) ---- *)
 Theorem C13_lua_strcmp_eq_lex : forall a b, l_strcmp (S (length a)) a b = Some (lex_cmp a b).
@@ -129,28 +131,19 @@ Theorem C13_gsub_eq_lua : forall (m : matcher) (s repl : bytes) (anchor : bool) 
 Proof. exact gsub_eq_lua_gen. Qed.
 Print Assumptions C13_gsub_eq_lua.
 
-(* full statement [gmatch_eq_lua] is false today: string.gmatch has no lastmatch rule *)
-Theorem C13_gmatch_eq_lua_refuted : ~ gmatch_eq_lua.
-Proof. exact gmatch_eq_lua_refuted. Qed.
-Print Assumptions C13_gmatch_eq_lua_refuted.
-
-Theorem C13_gmatch_eq_lua_partial : forall (m : matcher) (s : bytes),
-  (forall p e c, m p = Some (e, c) -> p < e <= slen s) ->
+(* string.gmatch (after 0222fe3, 893bab4): the sequence of matches is Lua's, for every anchored matcher *)
+Theorem C13_gmatch_eq_lua : forall (m : matcher) (s : bytes),
+  (forall p e c, m p = Some (e, c) -> p <= e <= slen s) ->
   forall init, 0 <= init ->
-  nl_gmatch_all (S (S (length s))) m s false init = lua_gmatch m s init /\ lua_gmatch m s init <> None.
-Proof. exact gmatch_eq_lua_partial_gen. Qed.
-Print Assumptions C13_gmatch_eq_lua_partial.
+  nl_gmatch m s init = lua_gmatch m s init /\ lua_gmatch m s init <> None.
+Proof. exact gmatch_eq_lua_gen. Qed.
+Print Assumptions C13_gmatch_eq_lua.
 
-(* full statement [max2_eq_lua] (two-argument math.max/min over any order, floats included) is false *)
-Theorem C13_max2_eq_lua_refuted : ~ max2_eq_lua.
-Proof. exact max2_eq_lua_refuted. Qed.
-Print Assumptions C13_max2_eq_lua_refuted.
-
-Theorem C13_max2_eq_lua_partial : forall (A : Type) (lt : A -> A -> bool) (x y : A),
-  (lt x y = false -> lt y x = false -> x = y) -> (lt x y = true -> lt y x = false) ->
+(* two-argument math.max/min (after 873f3b9): Lua's result for every order relation, partial ones included *)
+Theorem C13_max2_eq_lua : forall (A : Type) (lt : A -> A -> bool) (x y : A),
   nl_max2_gen A lt x y = lua_max2_gen A lt x y /\ nl_min2_gen A lt x y = lua_min2_gen A lt x y.
-Proof. exact max2_eq_lua_partial. Qed.
-Print Assumptions C13_max2_eq_lua_partial.
+Proof. exact max2_eq_lua. Qed.
+Print Assumptions C13_max2_eq_lua.
 
 (* ---- (e) UTF-8 ---- *)
 Theorem C13_utf8_roundtrip : forall x, 0 <= x <= 2147483647 ->
@@ -172,14 +165,11 @@ Theorem C13_utf8_decode_eq_lua : forall s strict, nl_utf8decode s strict = lua_u
 Proof. exact decode_eq_lua. Qed.
 Print Assumptions C13_utf8_decode_eq_lua.
 
-(* full statement [utf8char_eq_lua] is false today: utf8.char casts to uint32 before its range check *)
-Theorem C13_utf8char_eq_lua_refuted : ~ utf8char_eq_lua.
-Proof. exact utf8char_eq_lua_refuted. Qed.
-Print Assumptions C13_utf8char_eq_lua_refuted.
-
-Theorem C13_utf8char_eq_lua_partial : forall v b, 0 <= v < two32 -> lua_utf8char v = LVal b -> nl_utf8char v = Val b.
-Proof. exact utf8char_eq_lua_partial. Qed.
-Print Assumptions C13_utf8char_eq_lua_partial.
+(* utf8.char (after e5d4eb9) *)
+Theorem C13_utf8char_eq_lua : forall v, in_i64 v ->
+  match lua_utf8char v with LVal b => nl_utf8char v = Val b | LErr => nl_utf8char v = Trap end.
+Proof. exact utf8char_eq_lua. Qed.
+Print Assumptions C13_utf8char_eq_lua.
 
 Theorem C13_utf8relpos_eq_lua : forall pos len, in_i64 pos -> 0 <= len <= maxint ->
   (0 <= nl_utf8relpos pos len <-> 1 <= lua_u_posrelat pos len) /\
@@ -192,46 +182,45 @@ Theorem C13_codepoint_eq_lua_partial : forall s i strict c, in_i64 i -> slen s <
 Proof. exact codepoint_eq_lua_partial. Qed.
 Print Assumptions C13_codepoint_eq_lua_partial.
 
-(* full statement [codepoint_memory_safe] is false today: the decoding loop has no p < #s test *)
-Theorem C13_codepoint_memory_safe_refuted : ~ codepoint_memory_safe.
-Proof. exact codepoint_memory_safe_refuted. Qed.
-Print Assumptions C13_codepoint_memory_safe_refuted.
+(* utf8.codepoint never reads outside the string (after 6fefee4) *)
+Theorem C13_codepoint_memory_safe : forall s i strict, nl_utf8codepoint s i strict <> Unsafe.
+Proof. exact codepoint_memory_safe. Qed.
+Print Assumptions C13_codepoint_memory_safe.
 
 (* ---- (f) string.pack / unpack of sized integers ---- *)
 Theorem C13_pack_unpack_int_roundtrip : forall a size little, 1 <= size <= 16 -> in_i64 a ->
   (size < 8 -> - 2 ^ (8 * size - 1) <= a < 2 ^ (8 * size - 1)) ->
-  nl_unpack_int (nl_pack_int a size little) size little true = Some a.
+  exists bs, nl_pack_int a size little = Val bs /\ nl_unpack_int bs size little true = Some a.
 Proof. exact pack_unpack_int_roundtrip. Qed.
 Print Assumptions C13_pack_unpack_int_roundtrip.
 
 Theorem C13_pack_unpack_uint_roundtrip : forall a size little, 1 <= size <= 16 -> in_i64 a ->
-  (size < 8 -> 0 <= a < 2 ^ (8 * size)) -> (8 < size -> 0 <= a) ->
-  nl_unpack_int (nl_pack_uint a size little) size little false = Some a.
+  (size < 8 -> 0 <= a < 2 ^ (8 * size)) ->
+  exists bs, nl_pack_uint a size little = Val bs /\ nl_unpack_int bs size little false = Some a.
 Proof. exact pack_unpack_uint_roundtrip. Qed.
 Print Assumptions C13_pack_unpack_uint_roundtrip.
 
-Theorem C13_pack_int_eq_lua : forall a size little r, lua_pack_int a size little = LVal r -> nl_pack_int a size little = r.
+(* string.pack of sized integers (after 333c294): Lua's bytes where Lua returns, a stop where Lua raises
+   "integer overflow" / "unsigned overflow" *)
+Theorem C13_pack_int_eq_lua : forall a size little, in_i64 a -> 1 <= size <= 16 ->
+  match lua_pack_int a size little with
+  | LVal r => nl_pack_int a size little = Val r
+  | LErr => nl_pack_int a size little = Trap
+  end.
 Proof. exact pack_int_eq_lua. Qed.
 Print Assumptions C13_pack_int_eq_lua.
 
-Theorem C13_pack_uint_eq_lua_partial : forall a size little r, size <= 8 \/ 0 <= a ->
-  lua_pack_uint a size little = LVal r -> nl_pack_uint a size little = r.
-Proof. exact pack_uint_eq_lua_partial. Qed.
-Print Assumptions C13_pack_uint_eq_lua_partial.
-
-(* full statement [pack_uint_eq_lua] is false today: unsigned sizes above 8 are sign-extended *)
-Theorem C13_pack_uint_eq_lua_refuted : ~ pack_uint_eq_lua.
-Proof. exact pack_uint_eq_lua_refuted. Qed.
-Print Assumptions C13_pack_uint_eq_lua_refuted.
-
-(* full statement [pack_int_no_fabrication] is false today: no overflow check in packint *)
-Theorem C13_pack_int_no_fabrication_refuted : ~ pack_int_no_fabrication.
-Proof. exact pack_int_no_fabrication_refuted. Qed.
-Print Assumptions C13_pack_int_no_fabrication_refuted.
+Theorem C13_pack_uint_eq_lua : forall a size little, in_i64 a -> 1 <= size <= 16 ->
+  match lua_pack_uint a size little with
+  | LVal r => nl_pack_uint a size little = Val r
+  | LErr => nl_pack_uint a size little = Trap
+  end.
+Proof. exact pack_uint_eq_lua. Qed.
+Print Assumptions C13_pack_uint_eq_lua.
 
 (* ---- (h) the pattern matcher itself ---- *)
-(* full statement [match_eq_lua] (same result on every subject and pattern) is false today: smaller
-   recursion budget, and %f on the empty subject reads outside the subject *)
+(* full statement [match_eq_lua] (same result on every subject and pattern) is still false, for one reason:
+   the port's recursion budget (32) is smaller than Lua's (200); witness: 31 nested captures *)
 Theorem C13_match_eq_lua_refuted : ~ match_eq_lua.
 Proof. exact match_eq_lua_refuted. Qed.
 Print Assumptions C13_match_eq_lua_refuted.
